@@ -620,7 +620,11 @@ def run_unit_inner(unit, tier, seed):
                 body = "\n".join(gen_lines[int(f_["out_start"]) - 1:int(f_["out_end"])]) if f_ and f_.get("out_start") else ""
                 now = called_names(body)
                 foreign = sorted(n_ for n_ in now if n_ not in defined and n_ not in STD_SPECIFIED and (base is None or n_ not in base.get(short, set())))
-                if base is None or foreign:
+                # a stand-in keyed on a whole macro call (a print statement with its format string, R7 on macros) that no longer
+                # matches: the statement was reworded or re-argued, R5 turned it into `print_opaque()`, and what it now prints is
+                # unknown to the unit -> undecided as well
+                macro_lost = [k for k in hit if re.search(r"\b\w+\s*!\s*\(", k)]
+                if base is None or foreign or macro_lost:
                     undec.append({"unit": unit, "reason": "obligation failed in a function one of whose stand-ins no longer matches the code, and the code that replaced it calls names the unit has no model of (lost anchor //@exprmap)",
                                   "id": v["id"], "exprmap": hit[:3], "unmodelled_calls": foreign[:6]})
                     continue
